@@ -382,9 +382,117 @@ def check_crate(fx, rep, crate, tag):
                   gdetail)
 
 
+def _lin(e, cursor, P):
+    """linear form of e over {cursor field, P (the search result), 1}; None when e has another shape"""
+    import sym as SY
+    if e == P:
+        return {'P': 1}
+    if e[0] == 'const' and isinstance(e[1], int):
+        return {1: e[1]}
+    if e[0] == 'field' and e[1][-1] == cursor:
+        return {'m': 1}
+    if e[0] == 'bin' and e[1] in ('Add', 'Sub'):
+        a, b = _lin(e[2], cursor, P), _lin(e[3], cursor, P)
+        if a is None or b is None:
+            return None
+        out = dict(a)
+        for k, v in b.items():
+            out[k] = out.get(k, 0) + (v if e[1] == 'Add' else -v)
+        return {k: v for k, v in out.items() if v}
+    return None
+
+
+def _find(e, pred):
+    if isinstance(e, tuple) and e:
+        if isinstance(e[0], str) and pred(e):
+            return e
+        for x in e:
+            r = _find(x, pred)
+            if r is not None:
+                return r
+    return None
+
+
+def check_frame_arithmetic(fx, rep, crate, tag):
+    """R01.5: with N = message cursor + (offset returned by the terminator search over buffer[message cursor .. read cursor]),
+    the decoder gets buffer[message cursor .. N], the next frame starts at N + 1 and the last-frame test reads buffer[N + 1]"""
+    import sym as SY
+    anchors = [a for a in find_cursor(fx, rep, crate) if a['cursor_field']]
+    if not anchors:
+        return
+    a = anchors[0]
+    body, cursor, buf = a['body'], a['cursor_field'], a['buffer_field']
+    fk = body.path
+    dec_rng = SY.expr(crate, body, a['index_call']['args'][1])
+    if dec_rng[0] != 'adt' or len(dec_rng[3]) != 2:
+        rep.bad('R01.5', '%s|decoder-range|%s' % (fk, tag), C.where(body, a['block']), 'the decoder slice is not a [start..end] range')
+        return
+    start_e, end_e = dec_rng[3]
+    P = _find(end_e, lambda x: x[0] == 'payload' and _find(x, lambda y: y[0] == 'call' and y[1] in ('position', 'find', 'memchr')) is not None and
+              _find(x[2] if len(x) > 2 else (), lambda y: y[0] == 'payload') is None)
+    if P is None:
+        P = _find(end_e, lambda x: x[0] in ('payload', 'call') and _find(x, lambda y: y[0] == 'call' and y[1] in ('position', 'find', 'memchr')) is not None)
+    if P is None:
+        rep.bad('R01.5', '%s|search-result|%s' % (fk, tag), C.where(body, a['block']), 'the end of the decoder slice does not contain a terminator search result')
+        return
+    # (a) the search range
+    srch = _find(P, lambda x: x[0] == 'call' and x[1] == 'index')
+    rng = srch[2][1] if srch and len(srch[2]) > 1 else None
+    ok_a = bool(rng) and rng[0] == 'adt' and rng[3] and rng[3][0][0] == 'field' and rng[3][0][1][-1] == cursor and \
+        (len(rng[3]) == 1 or rng[3][1][0] == 'field')
+    rep.check(ok_a, 'R01.5', '%s|search-starts-at-message-cursor|%s' % (fk, tag), C.where(body, a['block']),
+              'the terminator search runs over buffer[message cursor .. read cursor]',
+              'the terminator search does not start at the message cursor (it can find the terminator of an already delivered frame, or miss the current one): %s' % SY.show(rng or ('unknown', '?')),
+              {'range': SY.show(rng or ('unknown', '?'), 200)})
+    # (b) decoder slice
+    ls, le = _lin(start_e, cursor, P), _lin(end_e, cursor, P)
+    rep.check(ls == {'m': 1} and le == {'m': 1, 'P': 1}, 'R01.5', '%s|decoder-slice-is-the-frame|%s' % (fk, tag), C.where(body, a['block']),
+              'the decoder gets buffer[message cursor .. message cursor + offset of the terminator]',
+              'the slice handed to the JSON decoder is not exactly [message cursor .. message cursor + terminator offset]: start %s, end %s' % (ls, le))
+    # (c) cursor advance
+    n = 0
+    for blk, i, st in C.field_stores(body, RC, cursor):
+        if st['rv']['k'] != 'use' or st['rv']['op'].get('k') == 'const':
+            continue
+        n += 1
+        e = SY.expr(crate, body, st['rv']['op'])
+        l = _lin(e, cursor, P)
+        rep.check(l == {'m': 1, 'P': 1, 1: 1}, 'R01.5', '%s|next-frame-starts-after-terminator|%d|%s' % (fk, n, tag), C.where(body, blk, i),
+                  'the message cursor advances to (terminator index) + 1',
+                  'the message cursor is advanced to %s instead of terminator index + 1 (message cursor + offset + 1): the next frame starts on the terminator or inside the next frame' % (l if l else SY.show(e, 160)))
+    if n == 0:
+        rep.bad('R01.5', '%s|next-frame-starts-after-terminator|anchor|%s' % (fk, tag), body.where(), 'no non-constant store to the message cursor found')
+    # (d) last-frame test index
+    ok_d = False
+    seen = []
+    for blk, t in body.iter_terms('assert'):
+        if t['msg'] != 'bounds':
+            continue
+        e = SY.expr(crate, body, t['index'])
+        l = _lin(e, cursor, P)
+        seen.append(l)
+        if l == {'m': 1, 'P': 1, 1: 1}:
+            ok_d = True
+    for blk, t in body.iter_terms('call'):
+        if t['callee'].get('name') in ('index', 'get', 'get_unchecked') and len(t['args']) == 2 and C.trace_field(body, t['args'][0], RC) == buf:
+            e = SY.expr(crate, body, t['args'][1])
+            if e[0] == 'adt':
+                continue
+            l = _lin(e, cursor, P)
+            seen.append(l)
+            if l == {'m': 1, 'P': 1, 1: 1}:
+                ok_d = True
+    rep.check(ok_d, 'R01.5', '%s|last-frame-test-reads-byte-after-terminator|%s' % (fk, tag), body.where(),
+              'the "last frame" test reads buffer[terminator index + 1] (the sentinel position)',
+              'no element access at terminator index + 1: the sentinel that marks "no more buffered frames" is read at the wrong place (indices seen: %s)' % seen)
+
+
 def check(fx, rep, tier):
     cfgs = [('full', 'full')] + ([('ws', 'ws'), ('nostd', 'nostd')] if tier == 'thorough' else [])
     for cfg, tag in cfgs:
         crate = fx.crate('zlink_core', cfg)
         check_crate(fx, rep, crate, tag)
+        check_frame_arithmetic(fx, rep, crate, tag)
+    rep.rule('R01.5', 'frame arithmetic: the search runs over buffer[message cursor..read cursor]; with N = message cursor + its result, the decoder gets '
+                      'buffer[message cursor..N], the next frame starts at N + 1, the last-frame test reads buffer[N + 1]')
     return META
